@@ -1,0 +1,42 @@
+//go:build verif
+// +build verif
+
+package ce
+
+import (
+	"github.com/kstenerud/go-concise-encoding/cbe"
+	"github.com/kstenerud/go-concise-encoding/configuration"
+	"github.com/kstenerud/go-concise-encoding/cte"
+)
+
+// Verification hooks (build tag "verif"): expose the first-byte dispatchers.
+
+// VerifChooseDecoder reports which decoder chooseDecoder picks for a first byte: "cte", "cbe" or "none".
+func VerifChooseDecoder(identifier byte) string {
+	d, err := chooseDecoder(identifier, configuration.New())
+	if err != nil {
+		return "none"
+	}
+	switch d.(type) {
+	case *cte.Decoder:
+		return "cte"
+	case *cbe.Decoder:
+		return "cbe"
+	}
+	return "other"
+}
+
+// VerifChooseUnmarshaler reports which unmarshaler chooseUnmarshaler picks for a first byte.
+func VerifChooseUnmarshaler(identifier byte) string {
+	u, err := chooseUnmarshaler(identifier, configuration.New())
+	if err != nil {
+		return "none"
+	}
+	switch u.(type) {
+	case *cte.Unmarshaler:
+		return "cte"
+	case *cbe.Unmarshaler:
+		return "cbe"
+	}
+	return "other"
+}
